@@ -84,6 +84,8 @@ def run(ctx):
         ctx.sweep(pairs, check_case)
         ctx.extra["pair_cases"] = len(pairs)
     e1common.generated(ctx, check_case, n=ctx.pick(500, 20000), profile="lifecycle")
+    # Pausable devices whose pause()/resume() hooks may raise: the error exits out of 'pausing' and out of resume()
+    e1common.generated(ctx, check_case, n=ctx.pick(300, 8000), profile="lifecycle_pausefault")
 
 
 def replay(case):
